@@ -44,6 +44,14 @@ class ExecHooks(Hooks):
         return Hooks.opaque_call(self, eng, st, fn, args, kwargs)
 
     def exc_attr(self, eng, st, ref, name):
+        if name in ("message", "error_type", "data"):
+            v = eng.sym_of_type("str | None", "cre_" + name, st)
+            st.setfield(ref, name, v)
+            return [("val", v, st)]
+        if name == "stack_trace":
+            v = eng.sym_of_type("list[str] | None", "cre_stack", st)
+            st.setfield(ref, name, v)
+            return [("val", v, st)]
         if name == "scheduled_timestamp":
             v = fresh("real", "scheduled_timestamp")
             st.setfield(ref, "scheduled_timestamp", v)
@@ -431,11 +439,20 @@ def create_result_items(chk, prefix="C09"):
                 succ = z3.And(b["status"].t == I["SUCCEEDED"], ops.values_equal(s, b["result"], e["_result"]), is_none(b["error"]))
                 err_ref = strip_opt(b["error"])
                 from .hobl import error_matches
-                fail = z3.And(b["status"].t == I["FAILED"], is_none(b["result"]), error_matches(s, err_ref, strip_opt(e["_error"]), eng) if isinstance(err_ref, Ref) else F)
+                exc_ = strip_opt(e["_error"])
+                is_cre = eng.symexc_isa(exc_, P.cls("exceptions.CallableRuntimeError"), s)
+                xs = s.get(exc_)
+                if isinstance(err_ref, Ref) and all(f in xs for f in ("message", "error_type", "data", "stack_trace")):
+                    eo = s.get(err_ref)
+                    cre_fields = z3.And(ops.values_equal(s, eo["message"], xs["message"]), ops.values_equal(s, eo["type"], xs["error_type"]), ops.values_equal(s, eo["data"], xs["data"]), ops.values_equal(s, eo["stack_trace"], xs["stack_trace"]))
+                else:
+                    cre_fields = F
+                err_ok = z3.If(is_cre, cre_fields, error_matches(s, err_ref, exc_, eng)) if isinstance(err_ref, Ref) else F
+                fail = z3.And(b["status"].t == I["FAILED"], is_none(b["result"]), err_ok)
                 started = z3.And(b["status"].t == I["STARTED"], is_none(b["result"]), is_none(b["error"]))
                 goal = z3.And(goal, ops.values_equal(s, b["index"], idx[i]), z3.If(stt == C["COMPLETED"], succ, z3.If(stt == C["FAILED"], fail, started)))
         chk.prove(f"{prefix}.result.items_faithful", s.pc, goal,
-                  desc="one item per branch, in branch order, with the branch's index; COMPLETED => SUCCEEDED with that branch's result; FAILED => FAILED with from_exception(its error); every other status => STARTED without result/error; classified with the executor's completion config",
+                  desc="one item per branch, in branch order, with the branch's index; COMPLETED => SUCCEEDED with that branch's result; FAILED => FAILED with the branch's error (the recorded error carried by a CallableRuntimeError, from_exception otherwise); every other status => STARTED without result/error; classified with the executor's completion config",
                   sample="_create_result over two arbitrary branches")
     return eng
 
@@ -738,4 +755,43 @@ def resubmitter_total(chk, prefix="C06"):
             goal = k == "val" and len(resubmitted) == 1 and resubmitted[0].exe == exe and not sets
             desc = "otherwise the branch is resubmitted after the refreshing checkpoint"
         chk.prove(f"{prefix}.timer.resubmit_total", s.pc, goal, desc=desc)
+    return eng
+
+
+def batch_replay_consistency(chk, prefix="C02"):
+    """C02.batch.replay_children: the item the first run reports for a FAILED branch vs the item replay() rebuilds from the branch's record.
+    First run: _create_result -> ErrorObject.from_exception(branch exception); the branch exception is what child_handler raised for the
+    branch: CallableRuntimeError(from_exception(e)) after recording FAIL(error = from_exception(e)).  Replay: item.error = recorded error."""
+    eng = Engine(hooks=ExecHooks())
+    P = eng.program
+    chk.function(CE + "._create_result", "verified (FAILED branch whose error is the CallableRuntimeError raised by its child handler)")
+    st = St()
+    bs_cls = P.cls(BS)
+    # the branch's recorded error object (from_exception(e) of the original exception)
+    rec_err = eng.sym_of_type("ErrorObject", "recorded_error", st, P.modules["lambda_service"])
+    r = st.get(rec_err)
+    st.assume(z3.And(z3.Not(is_none(r["message"])), z3.Not(is_none(r["type"])), is_none(r["data"]), is_none(r["stack_trace"])))  # shape of from_exception
+    # child handler raises rec_err.to_callable_runtime_error()  (C03.child.sync_before_outcome.error / C02.child.error)
+    made = eng.call_func(P.cls("lambda_service.ErrorObject").find_method("to_callable_runtime_error"), [rec_err], {}, st)
+    cre, st1 = made[0][1], made[0][2]
+    exe = st1.alloc(P.cls("concurrency.models.Executable"), {"index": fresh("int", "index"), "func": OpaqueFn("branch_func")})
+    ews = st1.alloc(P.cls("concurrency.models.ExecutableWithState"), {"executable": exe, "_status": enum_member(bs_cls, "FAILED"), "_result": None, "_is_result_set": False, "_error": cre, "_future": None, "_suspend_until": None})
+    self_ = st1.alloc(P.cls(CE), {"executables_with_state": st1.alloc("list", {"__kind__": "list", "items": (ews,)}), "completion_config": st1.alloc("opaque:CompletionConfig", {})})
+
+    def from_items(eng_, s, args, kwargs):
+        s.emit("from_items", items=args[1])
+        return [("val", s.alloc("opaque:BatchResult", {}), s)]
+    eng.summaries["concurrency.models.BatchResult.from_items"] = from_items
+    for k, v, s in eng.run(P.func(CE + "._create_result"), [self_], st=st1):
+        chk.paths += 1
+        fi = [e for e in s.trace if e.kind == "from_items"]
+        ok = k == "val" and len(fi) == 1 and len(s.get(fi[0].items)["items"]) == 1
+        goal = z3.BoolVal(ok)
+        if ok:
+            item = s.get(s.get(fi[0].items)["items"][0])
+            e1 = s.get(strip_opt(item["error"]))
+            goal = z3.And(goal, *[ops.values_equal(s, e1[f], r[f]) for f in ("message", "type", "data", "stack_trace")])
+        chk.prove(f"{prefix}.batch.replay_children", s.pc, goal,
+                  desc="a FAILED item of the first run carries the same error object (message, type, data, stack trace) that replay() later takes from the branch's record",
+                  sample="_create_result item error vs recorded branch error")
     return eng
